@@ -115,6 +115,7 @@ def parse_structs(text):
         j = balanced(s, i, "{", "}")
         body = s[i + 1:j - 1]
         fields, args, k = [], [], 0
+        lists = []          # >>> w_derive: the argument list of every #[jomini(..)] attribute, one entry per attribute <<<
         while True:
             while k < len(body) and body[k].isspace():
                 k += 1
@@ -126,6 +127,7 @@ def parse_structs(text):
                 mm = re.match(r"^jomini\s*\((.*)\)$", a, re.S)
                 if mm:
                     args += parse_args(mm.group(1))
+                    lists.append(parse_args(mm.group(1)))      # w_derive
                 k = e
                 continue
             # ident : type ,
@@ -135,8 +137,9 @@ def parse_structs(text):
                 k += 1
             rest = re.sub(r"^pub(\([^)]*\))?\s+", "", rest)
             fname, ftype = rest.split(":", 1)
-            fields.append({"name": fname.strip(), "type": " ".join(ftype.split()), "args": args})
+            fields.append({"name": fname.strip(), "type": " ".join(ftype.split()), "args": args, "arglists": lists})
             args = []
+            lists = []
         out[name] = {"generics": generics, "fields": fields}
     return out
 
@@ -309,6 +312,39 @@ class Tables:
                 "1" if r["duplicated"] else "0", "1" if r["take_last"] else "0", "1" if r["option"] else "0", r["default"],
                 hx(tdef) if tdef else "-", hx(pdef) if pdef else "-"]))
         return ";".join(out)
+
+    # >>> w_derive: the RAW syntax of the fields (argument of dc.*.m, DeriveCode.raw_field): nothing of what the macro
+    # decides is applied here -- the attribute lists stay apart, literals keep their kind, the type is its path segments
+    def raw_arg(self, inst):
+        hx = lambda b: (b.encode().hex() or "-")
+        ty = self.instances[inst]
+        segs, gen = outer_path(ty)
+        st = self.structs[segs[-1]]
+        env = dict(zip(st["generics"], gen))
+
+        def enc(a, v):
+            if v is None:
+                return "w" + hx(a)
+            if isinstance(v, str):
+                return "s%s.%s" % (hx(a), hx(v))
+            return "i%s.%d" % (hx(a), v) if v >= 0 else "o" + hx(a)
+        out = []
+        for f in st["fields"]:
+            fty = subst(f["type"], env)
+            lists = f["arglists"]
+            ls = "-" if not lists else "|".join("_" if not l else ",".join(enc(a, v) for a, v in l) for l in lists)
+            path = "-" if fty[:1] in "[(&*" else ",".join(hx(x) for x in outer_path(fty)[0])
+            try:
+                tdef = self.type_default(self.shape(fty))
+            except TableError:
+                tdef = None
+            if any(a == "duplicated" for l in lists for a, _ in l):
+                tdef = None          # the element type's shape is what `shape` knows; never consulted for a duplicated field
+            fns = [(v, self.fn_value(v)) for l in lists for a, v in l if a == "default" and isinstance(v, str)]
+            out.append(":".join([hx(f["name"]), ls, path or "-", hx(tdef) if tdef else "-",
+                                 ",".join("%s.%s" % (hx(n), hx(v)) for n, v in fns) or "-"]))
+        return ";".join(out)
+    # <<< w_derive
 
     # ---- the same rules in Python, for the specification (format of props/C18.py:STRUCTS + extras) ----
     def fields_of(self, inst):
